@@ -362,4 +362,93 @@ def moduleText (O : EOra) (write : Bool) (defs : List ClassSrc) (main : ClassSrc
       else joinClasses O defs ++ (if write then cLF :: cLF :: (starLine ++ nl3) else nl3))
      ++ (classText O main.name main.desc main.schema ++ [cLF])))
 
+/-! ### schema-level side conditions of the acceptance theorem (`Lemmas/SchemaEmit.lean`, `Props/C09.lean`) -/
+
+mutual
+/-- JSON values (what `repr` prints as a Python literal of the subset) -/
+def jsonVal : PyVal → Bool
+  | .none => true
+  | .bool _ => true
+  | .int _ => true
+  | .float _ => true
+  | .str _ => true
+  | .list xs => jsonValL xs
+  | .dict kvs => jsonValKV kvs
+  | _ => false
+termination_by structural v => v
+def jsonValL : List PyVal → Bool
+  | [] => true
+  | x :: xs => jsonVal x && jsonValL xs
+termination_by structural xs => xs
+def jsonValKV : List (PyVal × PyVal) → Bool
+  | [] => true
+  | (k, v) :: r => jsonVal k && jsonVal v && jsonValKV r
+termination_by structural kvs => kvs
+end
+
+
+def dOk : Option PyVal → Bool
+  | none => true
+  | some v => jsonVal v
+
+def dName (d : Option PyVal) : List (List Char) := if d.isSome then [chars!"default"] else []
+
+/-- the keyword-argument names of the `StructureReference(...)` call of a nested object -/
+def objKwNames (addl : Bool) (req : Option (List String)) (names : List String) (d : Option PyVal) :
+    List (List Char) :=
+  (if addl then [] else [chars!"_additional_properties"]) ++ ((if req.isSome then [chars!"_required"] else [])
+    ++ (names.map String.toList ++ dName d))
+
+mutual
+/-- the schema is printed as a well-formed expression: `$ref` names are identifiers, property names
+    are assignable identifiers and distinct as keyword arguments, values are JSON values -/
+def emitOk : Schema → Option PyVal → Bool
+  | .ref n, _ => asciiIdent n.toList
+  | .num _ _ _ _ _, d => dOk d
+  | .str _ _ _, d => dOk d
+  | .bool, d => dOk d
+  | .enum vs, d => jsonValL vs && dOk d
+  | .arrAny _, d => dOk d
+  | .arrOf s _, d => emitOk s none && dOk d
+  | .arrPos ss _ _, d => emitOkL ss && dOk d
+  | .mapAny _ _ _, d => dOk d
+  | .mapOf v _ _, d => emitOk v none && dOk d
+  | .obj props defaults req addl, d =>
+    (props.all fun p => targetName p.1.toList) && nodupL (objKwNames addl req (props.map (·.1)) d)
+      && emitOkP defaults props && dOk d
+  | .allOf ss, d => emitOkL ss && dOk d
+  | .anyOf ss, d => emitOkL ss && dOk d
+  | .oneOf ss, d => emitOkL ss && dOk d
+  | .notS ss, d => emitOkL ss && dOk d
+  | .unsupported _, _ => false
+termination_by structural s => s
+def emitOkL : List Schema → Bool
+  | [] => true
+  | s :: ss => emitOk s none && emitOkL ss
+termination_by structural ss => ss
+def emitOkP (defaults : List (String × PyVal)) : List (String × Schema) → Bool
+  | [] => true
+  | (n, s) :: ps => emitOk s (lookup n defaults) && emitOkP defaults ps
+termination_by structural ps => ps
+end
+
+
+def descOk : Option String → Bool
+  | none => true
+  | some d => !d.toList.contains cNUL
+
+/-- the schema of a class statement (top level: `schema_to_struct_code`) is printed well-formed -/
+def classSchemaOk (s : Schema) : Bool :=
+  match s with
+  | .obj props defaults _ _ => (props.all fun p => targetName p.1.toList) && emitOkP defaults props
+  | .mapAny _ _ _ => true
+  | .mapOf _ _ _ => true
+  | s => emitOk s none
+
+
+/-- schema-level conditions under which a class is printed well-formed -/
+def classSrcOk (c : ClassSrc) : Bool :=
+  asciiIdent c.name.toList && descOk c.desc && classSchemaOk c.schema
+
+
 end Typedpy.Emit
